@@ -254,11 +254,25 @@ Proof.
     + intros r r' Hr. apply sound_opt_Some. constructor; [snd | exact Hr].
 Qed.
 
-Lemma lonlat_to_cell_sound lon lat lon' lat' res :
+Lemma trunc_sound x x' : encl x x' -> sound_opt eq (Cell.trunc IvInst x) (Cell.trunc RInst x').
+Proof. intros Hx. cbv beta iota zeta delta [Cell.trunc]. snd. Qed.
+
+Ltac snd_cell7 :=
+  first [ snd_cell6 |
+  match goal with
+  | |- sound_opt _ (Cell.trunc IvInst _) (Cell.trunc RInst _) => apply trunc_sound
+  end ].
+Ltac snd_user ::= snd_cell7.
+
+Lemma frem_sound x m x' m' :
+  encl x x' -> encl m m' -> sound_opt encl (frem IvInst x m) (frem RInst x' m').
+Proof. intros Hx Hm. cbv beta iota zeta delta [frem]. snd. Qed.
+
+Lemma lonlat_to_cell_core_sound lon lat lon' lat' res :
   encl lon lon' -> encl lat lat' ->
-  sound_opt eq (lonlat_to_cell IvInst lon lat res) (lonlat_to_cell RInst lon' lat' res).
+  sound_opt eq (lonlat_to_cell_core IvInst lon lat res) (lonlat_to_cell_core RInst lon' lat' res).
 Proof.
-  intros Hlon Hlat. unfold lonlat_to_cell.
+  intros Hlon Hlat. unfold lonlat_to_cell_core.
   destruct (negb ((-1 <=? res)%Z && (res <? MAX_RESOLUTION)%Z)); [snd|].
   destruct (res =? -1)%Z; [snd|].
   destruct (res <? 2)%Z.
@@ -272,6 +286,17 @@ Proof.
     + destruct Hr as [|x x' rest rest' Hx Hrest]; [snd|].
       eapply sound_opt_bindH; [apply best_of_sound; assumption|].
       intros b b' <-. snd.
+Qed.
+
+Lemma lonlat_to_cell_sound lon lat lon' lat' res :
+  encl lon lon' -> encl lat lat' ->
+  sound_opt eq (lonlat_to_cell IvInst lon lat res) (lonlat_to_cell RInst lon' lat' res).
+Proof.
+  intros Hlon Hlat. unfold lonlat_to_cell.
+  destruct (negb ((-1 <=? res)%Z && (res <? MAX_RESOLUTION)%Z)); [snd|].
+  destruct (res =? -1)%Z; [snd|].
+  eapply sound_opt_bindH; [apply frem_sound; [exact Hlon | snd]|].
+  intros l l' Hl. apply lonlat_to_cell_core_sound; assumption.
 Qed.
 
 Lemma cell_to_lonlat_sound id :
@@ -302,20 +327,6 @@ Proof.
       apply sound_opt_Some. apply to_lon_lat_sound; assumption.
     + intros pts pts' Hpts. apply sound_opt_Some. exact Hpts.
 Qed.
-
-Lemma trunc_sound x x' : encl x x' -> sound_opt eq (Cell.trunc IvInst x) (Cell.trunc RInst x').
-Proof. intros Hx. cbv beta iota zeta delta [Cell.trunc]. snd. Qed.
-
-Ltac snd_cell7 :=
-  first [ snd_cell6 |
-  match goal with
-  | |- sound_opt _ (Cell.trunc IvInst _) (Cell.trunc RInst _) => apply trunc_sound
-  end ].
-Ltac snd_user ::= snd_cell7.
-
-Lemma frem_sound x m x' m' :
-  encl x x' -> encl m m' -> sound_opt encl (frem IvInst x m) (frem RInst x' m').
-Proof. intros Hx Hm. cbv beta iota zeta delta [frem]. snd. Qed.
 
 Lemma wrap_down_sound fuel :
   forall lon c lon' c', encl lon lon' -> encl c c' ->
